@@ -164,6 +164,7 @@ ASIGS = {
     'set_trig': ['oint'], 'copy': ['int', 'int'], 'shutdown': [],
     'add_expr': ['spell'], 'add_expr_text': ['text'], 'add_expr_lr': ['text'], 'to_expr': ['int'],
     'assert_consistent': [],
+    'copy_bdds_from': ['int', 'lint'],
     'json_dump': ['hroots', 'lint'], 'json_load': ['dnn', 'roots', 'jnodes', 'bool'],
 }
 
